@@ -59,7 +59,8 @@ Mono(s, ks) == [t |-> "mono", s |-> s, ks |-> ks]
 SeqP(l) == [t |-> "seq", l |-> l]
 Chain(a, b) == [t |-> "chain", l |-> <<a, b>>]
 DeltaP(x, p) == [t |-> "delta", x |-> x, p |-> p]
-DurP(x, p) == [t |-> "dur", x |-> x, p |-> p]
+DurP(x, p) == [t |-> "dur", x |-> x, p |-> p, tl |-> 0]
+DurPT(x, tl, p) == [t |-> "dur", x |-> x, p |-> p, tl |-> tl]
 Par(l) == [t |-> "par", l |-> l]
 MN(S) == [i \in 1..Len(S) |-> V(S[i] * 64)]
 D32(S) == [i \in 1..Len(S) |-> V(S[i])]
@@ -74,6 +75,10 @@ BI == Bind(<<KC("instrument", VS("vg")), KC("degree", V(64)), KC("dur", V(8)), K
 BK == Bind(<<KC("instrument", VS("vn")), KL("midinote", MN(<<45, 57>>)), KP("dur", D32(<<16, 16, 16>>), 40)>>)                    \* Pconst-limited durations
 BL == Bind(<<KC("instrument", VS("vp")), KL("dur", D32(<<32, 32>>)), KC("amp", V(256)), KC("stretch", V(16))>>)                   \* no freq control
 BG == Bind(<<KC("instrument", VS("vg")), KL("degree", MN(<<0, 1>>)), KC("dur", V(32)), KC("send_gate", V(0)), KC("add_action", VS("addToTail")), KC("group", V(1))>>)
+\* durations off the 0.001 s grid (3/32, 5/32, ...): the default tolerance then rounds every partial sum
+BO == Bind(<<KC("instrument", VS("vn")), KL("midinote", MN(<<60, 61, 62, 63, 64, 65>>)), KL("dur", D32(<<3, 5, 3, 6, 5, 10>>))>>)
+\* partial sums 4 16 22 32 40 48 (in 1/32 s) against explicit tolerances 1/4 and 1/2 s
+BT == Bind(<<KC("instrument", VS("vn")), KL("midinote", MN(<<60, 61, 62, 63, 64, 65>>)), KL("dur", D32(<<4, 12, 6, 10, 8, 8>>)), KC("legato", V(16))>>)
 BDef == Bind(<<KC("instrument", VS("vg")), KL("degree", MN(<<0, 5>>)), KC("dur", V(32))>>)                                       \* default legato 0.8
 Over == Bind(<<KL("ctranspose", MN(<<12, 12, 12, 12>>)), KC("amp", V(128))>>)
 Over2 == Bind(<<KC("instrument", VS("vn")), KL("harmonic", <<V(16), V(16), V(8)>>)>>)
@@ -88,6 +93,9 @@ Progs1 == Binds \cup {MA, MB}
     \cup {Par(<<a, b, c>>) : a \in FewBinds, b \in {BC, BD}, c \in {BB, BK}}
     \cup {DurP(x, a) : x \in {8, 24, 40, 100}, a \in Binds \cup {BI, MA, MI}}
     \cup {DurP(x, Par(<<a, b>>)) : x \in {20, 36}, a \in FewBinds \cup {BI}, b \in {BC, BI}}
+    \cup {DurP(x, BO) : x \in {7, 12, 17, 22}} \cup {SeqP(<<DurP(12, BO), BA>>), DurP(20, Par(<<BO, BA>>))}
+    \cup {DurPT(x, tl, a) : x \in {20, 24, 30, 33}, tl \in {8, 16}, a \in {BT, BI}}
+    \cup {SeqP(<<DurPT(24, 8, BT), BA>>), DurPT(30, 16, Par(<<BT, BA>>))}
     \cup {DeltaP(x, a) : x \in {0, 12}, a \in FewBinds}
     \cup {Par(<<a, DeltaP(x, b)>>) : x \in {8, 20}, a \in FewBinds, b \in {BA, BC}}
     \cup {Chain(o, a) : o \in {Over, Over2}, a \in {BA, BB, BR, BDef}}
@@ -114,7 +122,7 @@ LawsProg(E) ==
     /\ \A i \in 1..Len(sc) : sc[i].cmd # "/s_new" => \E j \in 1..Len(sc) : sc[j].cmd = "/s_new" /\ sc[j].ref = sc[i].ref /\ sc[j].t <= sc[i].t
     /\ (E.t = "par" /\ \A i \in 1..Len(E.l) : E.l[i].t \in {"bind", "mono", "delta"})
           => Bag(sc) = Bag(FlattenSeq([i \in 1..Len(E.l) |-> Score(E.l[i], 64 * (U \div 32), 8 * (U \div 32))]))   \* each child keeps its own timeline
-    /\ (E.t = "dur" /\ SumDelta(Items(E.p), Len(Items(E.p))) >= E.x * (U \div 32)) => EndTime(E, 0) = E.x * (U \div 32)
+    /\ (E.t = "dur" /\ SumDelta(Items(E.p), Len(Items(E.p))) >= E.x * (U \div 32)) => EndTime(E, 0) = E.x * (U \div 32)   \* whatever the tolerance
 
 (* ---- machine: pick an event or a program; evaluate ---- *)
 VARIABLES kind, ix, picked
